@@ -1,10 +1,14 @@
 #!/bin/sh
-# usage: tools/benignrun.sh <patch-name> <prop-id> [tier]: apply benign/<name>.patch (a behaviour-preserving change) to /repo,
-# run the check, undo. Expected: exit 0, or exit 2 (UNDECIDED, contract no longer matches the code) -- never a VIOLATION line.
+# usage: tools/benignrun.sh <patch-name> <prop-id> [tier]: apply benign/<name>.patch (a behaviour-preserving change) to a scratch
+# worktree of /repo (outside /repo and /verif), run the check against it, remove the worktree.
+# Expected: exit 0, or exit 2 (UNDECIDED, contract no longer matches the code) -- never a VIOLATION line.
 p=/verif/benign/$1.patch; id=$2; tier=${3:-quick}
-git -C /repo apply "$p" || exit 3
-VERIF_NOEVIDENCE=1 /verif/check "$id" "$tier" > /tmp/benignrun.$$ 2>&1; rc=$?
-git -C /repo apply -R "$p"
+wt=$(mktemp -d /tmp/govc-benign-XXXXXX); rmdir "$wt"
+git -C /repo worktree add --detach -q "$wt" HEAD || exit 3
+git -C /repo diff HEAD | (cd "$wt" && git apply --allow-empty -q 2>/dev/null || true)
+(cd "$wt" && git apply "$p") || { git -C /repo worktree remove --force "$wt"; exit 3; }
+VERIF_REPO="$wt" VERIF_NOEVIDENCE=1 /verif/bin/govc check -prop "$id" -tier "$tier" > /tmp/benignrun.$$ 2>&1; rc=$?
+git -C /repo worktree remove --force "$wt"
 grep -E "VIOLATION|FAILED|failed|UNDECIDED|VACUOUS|WARN|warn|^$id" /tmp/benignrun.$$ | cut -c1-260 | head -${BENIGN_LINES:-12}
 rm -f /tmp/benignrun.$$
 echo "benign $1 check $id $tier exit=$rc"
